@@ -15,7 +15,11 @@ PROP = {'rule': 'rapid-generated cases: node capacity (1-256 cpu, 1 GiB-4 TiB), 
          'NodeResourceReconciler.Reconcile against a fake client over a generated history (NodeMetric absent from the start / never '
          'reported / fresh / stale / deleted through the delete handler / re-created, pods added and removed, node heartbeats, '
          'controller clock steps, node optionally starting with old amounts), reconciled after every step; non-trivial = a reconcile '
-         'with unusable metrics found amounts on the node and had to withdraw them. distinct = FNV-64 of the full case.',
+         'with unusable metrics found amounts on the node and had to withdraw them. batchStrategyLayers: the batch case plus '
+         'strategy layers on the same node — 0-3 node-pool configs (selectors on pool/tier labels or empty, matching or not, several '
+         'matching), the colocation-strategy annotation (partial / junk / absent) and the ratio labels — resolved with '
+         'GetNodeColocationStrategy; non-trivial = a node-pool config matches AND an annotation or valid ratio label is present AND a '
+         'node amount is positive. distinct = FNV-64 of the full case.',
  'assumptions': ['a reported NodeMetric status always carries status.nodeMetric together with status.updateTime (what koordlet writes); '
                  'the never-reported case (empty status) is generated separately in batchStale',
                  'pods carry only legal priority/QoS combinations; container limits are never set without a request (API-server '
@@ -35,16 +39,20 @@ PROP = {'rule': 'rapid-generated cases: node capacity (1-256 cpu, 1 GiB-4 TiB), 
                  'zone bounds use the code\'s documented approximation: system usage, reservation and unbound pods are split evenly '
                  'over the zones, NUMA-bound pods evenly over their zones',
                  'tolerance 2 units (milli-cpu / byte) for the two float multiplications (safety margin, percentage cap)',
+                 'strategy layers (documented precedence): cluster strategy < first node-pool config whose selector matches < node '
+                 'annotation colocation-strategy (unparsable: ignored) < ratio labels; an override replaces only the fields it sets; '
+                 'the annotation never carries enable=false and the mid labels are not combined with node-pool configs',
                  'reconcileHistory: a reconcile may follow any step (node events and resyncs trigger it); only the withdrawal clause is '
                  'asserted on the Node object (published amounts may lag a fresh calculation by design: resourceDiffThreshold / '
                  'updateTimeThresholdSeconds); the plugins read the wall clock there, so update times are relative to time.Now(): fresh '
                  '<= 2 min old with a degrade window >= 30 min, stale >= 1 h beyond the window'],
  'units': [{'name': 'batch',
             'pkg': 'pkg/slo-controller/noderesource/plugins/batchresource',
-            'files': ['C09/c09_batch_test.go'],
+            'files': ['C09/c09_batch_test.go', 'C09/c09_strategy_test.go'],
             'tests': [{'run': 'TestVerifC09BatchBound', 'quick': 5000, 'thorough': 12000},
                       {'run': 'TestVerifC09BatchMonotone', 'quick': 4000, 'thorough': 10000},
-                      {'run': 'TestVerifC09BatchStale', 'quick': 1500, 'thorough': 2000}]},
+                      {'run': 'TestVerifC09BatchStale', 'quick': 1500, 'thorough': 2000},
+                      {'run': 'TestVerifC09BatchStrategyLayers', 'quick': 3000, 'thorough': 8000}]},
            {'name': 'mid',
             'pkg': 'pkg/slo-controller/noderesource/plugins/midresource',
             'files': ['C09/c09_mid_test.go'],
